@@ -19,12 +19,17 @@ ASSUMPTIONS = ASSUMPTIONS_TRANSPORT + [
     "the keys of that epoch when the packet was delivered",
 ]
 COMPONENTS = COMPONENTS_TRANSPORT
-PLAN = plan(60, 900, ["soundness", "soundness", "timeliness", "timeliness_fault_free"])
+PLAN = plan(60, 900, ["soundness", "soundness", "timeliness", "timeliness_migration", "timeliness_fault_free"])
 
 PROFILES = {
     "soundness": {"faults": ("drop", "dup", "delay", "blackout", "rebind", "timer-late", "clock", "spoof", "stall")},
     "timeliness": {"faults": ("drop", "dup", "delay", "blackout"),
                    "op_weights": {"write": 10, "fin": 3, "reset": 1.5, "stop": 1.0, "ping": 2.5}},
+    # address changes in the middle of bulk transfers: path challenges and responses compete with the
+    # acknowledgements for room in the packets of a sender whose window is full
+    "timeliness_migration": {"faults": ("drop", "dup", "delay", "rebind"), "max_rebinds": 4, "rebind_mean": 1.5,
+                             "sizes": (1200, 6000, 20000, 66000, 66000, 200000),
+                             "op_weights": {"write": 10, "fin": 3, "reset": 0.5, "stop": 0.5, "ping": 1.5}},
     "timeliness_fault_free": {"fault_free": True,
                               "op_weights": {"write": 10, "fin": 3, "reset": 1.5, "stop": 1.0, "ping": 2.5}},
 }
